@@ -304,6 +304,60 @@ def make_factories():
     return fn
 
 
+# ------------------------------------------------------------------ O2c: components deny-listed by name
+def run_components_denied(denied, order, stale):
+    """two datasources whose names end in the same segment; `denied` (subset of A, B) is deny-listed by full component name through
+    collect.apply_blacklist in the given order; returns the tags of the bodies that ran"""
+    ran = []
+    saved = list(blacklist.BLACKLISTED_SPECS)
+    try:
+        comps = {}
+        for tag in ("A", "B"):
+            def body(broker, _t=tag):
+                ran.append(_t)
+                return "v"
+            body.__name__ = "secret"
+            body.__qualname__ = "Specs%s.secret" % tag
+            body.__module__ = "c06pkg%s" % tag.lower()
+            comps[tag] = SF.datasource(HostContext)(body)
+            # make the full name importable, as it is for real spec modules (set_enabled resolves a name by importing it)
+            import sys as _sys
+            import types as _types
+            m = _types.ModuleType(body.__module__)
+            setattr(m, "Specs%s" % tag, type("Specs%s" % tag, (object,), {"secret": staticmethod(comps[tag])}))
+            _sys.modules[body.__module__] = m
+            dr.COMPONENT_IMPORT_CACHE.pop(dr.get_name(comps[tag]), None)
+            dict.pop(dr.COMPONENTS_BY_NAME, dr.get_name(comps[tag]), None)
+        if stale:
+            # earlier in this process a spec of the same short name was skipped (dr.run_components records that on BlacklistedSpec)
+            blacklist.BLACKLISTED_SPECS.append("secret")
+        names = [dr.get_name(comps[t]) for t in (denied if order == 0 else list(reversed(denied)))]
+        collect.apply_blacklist({"components": names})
+        broker = dr.Broker()
+        broker[HostContext] = HostContext()
+        graph = {}
+        for c in comps.values():
+            graph.update(dr.get_dependency_graph(c))
+        dr.run(graph, broker=broker)
+        return ran
+    finally:
+        blacklist.BLACKLISTED_SPECS[:] = saved
+
+
+def make_components_denied():
+    def fn(en):
+        with REG:
+            denied = [t for t in ("A", "B") if en.flag("deny_" + t)]
+            order = en.choice("order", 2)
+            stale = en.flag("stale")
+            case = lambda mv: {"kind": "components", "denied": denied, "order": order, "stale": stale}  # noqa
+            en.note_sample(case)
+            ran = run_components_denied(denied, order, stale)
+            bad = ["deny-listed component %s ran" % t for t in denied if t in ran] + ["component %s is not deny-listed but did not run" % t for t in ("A", "B") if t not in denied and t not in ran]
+            en.must_hold(not bad, "deny-list", case, detail=bad)
+    return fn
+
+
 # ------------------------------------------------------------------ O3 destinations
 SERIALIZERS = ["text", "raw", "datasource", "command", "container_file", "container_command"]
 
@@ -345,6 +399,51 @@ def make_dest(maxlen):
         inside = f_or(f_eq(norm, root) if len(norm) == len(root) else False, f_startswith(norm, root + "/"))
         en.must_hold(inside if isinstance(inside, bool) else SBool(inside), "written-inside-output", case,
                      detail="a persisted file is created outside the output directory it was given")
+    return fn
+
+
+# ------------------------------------------------------------------ O3c: save-as names as the factories normalise them
+SAVE_AS_FACTORIES = ["simple_file", "glob_file", "first_file", "foreach_collect", "simple_command", "command_with_args", "foreach_execute"]
+
+
+def factory_save_as(fname, sa):
+    """the save_as attribute the real factory keeps for the argument `sa`"""
+    def names(broker):
+        return ["one"]
+    names.__name__ = "names"
+    nds = SF.datasource(HostContext)(names)
+    if fname == "simple_file":
+        f = SF.simple_file("/etc/x.conf", save_as=sa)
+    elif fname == "glob_file":
+        f = SF.glob_file("/etc/*.conf", save_as=sa)
+    elif fname == "first_file":
+        f = SF.first_file(["/etc/x.conf", "/etc/y.conf"], save_as=sa)
+    elif fname == "foreach_collect":
+        f = SF.foreach_collect(nds, "/etc/%s.conf", save_as=sa)
+    elif fname == "simple_command":
+        f = SF.simple_command("/bin/echo x", save_as=sa)
+    elif fname == "command_with_args":
+        f = SF.command_with_args("/bin/echo %s", nds, save_as=sa)
+    else:
+        f = SF.foreach_execute(nds, "/bin/echo %s", save_as=sa) if "save_as" in SF.foreach_execute.__init__.__code__.co_varnames else None
+    return None if f is None else f.save_as
+
+
+def make_save_as(maxlen):
+    def fn(en):
+        with REG:
+            fname = SAVE_AS_FACTORIES[en.choice("factory", len(SAVE_AS_FACTORIES))]
+            sa = sstr.fresh_str(en, "save_as", 1 + en.choice("len", maxlen), "/ab")
+            case = lambda mv: {"kind": "save_as", "factory": fname, "save_as": mv.str(sa)}  # noqa
+            en.note_sample(case)
+            kept = factory_save_as(fname, sa)
+            kind = "command" if "command" in fname or "execute" in fname else "text"
+            root = "/out/data"
+            dst = dest_of(kind, "etc/x.conf" if kind == "text" else "echo_x", kept, root)
+            norm = symops._sympath().normpath(dst)
+            inside = f_or(f_eq(norm, root) if len(norm) == len(root) else False, f_startswith(norm, root + "/"))
+            en.must_hold(inside if isinstance(inside, bool) else SBool(inside), "written-inside-output", case,
+                         detail="with this save-as name the persisted file is created outside the output directory")
     return fn
 
 
@@ -390,12 +489,20 @@ def obligations(tier):
                    stubs=["HostContext.shell_out / check_output record the command instead of executing it", "for the two container factories `which` answers that the engine binary exists (no container engine is installed here)"],
                    outside=["listdir / listglob read names only"],
                    encoded=enc[1:2] + enc[4:12], budget_s=120, replay="factory", check_sample=True),
+        Obligation("O2c-components-by-name", make_components_denied(), ["deny-list"],
+                   desc="components deny-listed by their full name through apply_blacklist: two datasources whose names end in the same segment, any subset denied in either order, with or without an earlier skip of the same short name in the process",
+                   bounds={"components": 2, "denied": "any subset, both orders", "earlier skip recorded": "yes / no"}, encoded=[collect.apply_blacklist, dr.set_enabled, dr.run_components],
+                   budget_s=60, replay="factory", check_sample=True),
         Obligation("O3-destinations", make_dest(6 if thorough else 5), ["written-inside-output"],
                    desc="destination computed by the six provider serializers for a symbolic relative path and each save-as form",
                    bounds={"relative path": "1-%d chars over / . a, not starting with /" % (6 if thorough else 5), "save_as": SAVE_AS},
                    stubs=["os.path.join / basename / normpath run on symbolic strings through an instrumented copy of posixpath.py", "provider.write records its destination"],
                    outside=["absolute or '..' save_as values (spec-author constants)"], encoded=enc[12:18], budget_s=900 if thorough else 150, replay="dest",
                    check_sample=True, classify=classify),
+        Obligation("O3c-save-as", make_save_as(4 if thorough else 3), ["written-inside-output"],
+                   desc="the save-as name a spec declares, as normalised by each factory, joined by the serializers: the destination stays inside the output directory",
+                   bounds={"factories": SAVE_AS_FACTORIES, "save_as": "1-%d symbolic chars over '/', 'a', 'b'" % (4 if thorough else 3)},
+                   outside=["save-as names with '.' segments (a spec author's constant, not collected data)"], encoded=enc[12:] if len(enc) > 12 else enc, budget_s=300 if thorough else 100, replay="dest", check_sample=True),
         Obligation("O3b-mangle", make_mangle(5 if thorough else 4), ["written-inside-output"],
                    desc="mangle_command on a symbolic command never yields a name with '/', '.' or '..'", bounds={"command": "1-%d chars over '/ .-_a{b'" % (5 if thorough else 4)},
                    stubs=["re.sub via SymRe"], encoded=enc[18:], budget_s=600 if thorough else 120, replay="mangle", check_sample=True),
@@ -472,6 +579,15 @@ def _native(case):
     if kind == "factory":
         touched, dfile, dcmd = run_factory(case["factory"], case["denied"], case["mode"])
         return judge_factory(touched, dfile, dcmd)
+    if kind == "components":
+        ran = run_components_denied(case["denied"], case["order"], case["stale"])
+        return ["deny-listed component %s ran" % t for t in case["denied"] if t in ran] + ["component %s is not deny-listed but did not run" % t for t in ("A", "B") if t not in case["denied"] and t not in ran]
+    if kind == "save_as":
+        kept = factory_save_as(case["factory"], case["save_as"])
+        k2 = "command" if "command" in case["factory"] or "execute" in case["factory"] else "text"
+        dst = dest_of(k2, "etc/x.conf" if k2 == "text" else "echo_x", kept, "/out/data")
+        norm = posixpath.normpath(dst)
+        return [] if norm == "/out/data" or norm.startswith("/out/data/") else ["%s(save_as=%r) keeps %r: the serializer writes to %s" % (case["factory"], case["save_as"], kept, norm)]
     if kind == "dest":
         dst = dest_of(case["serializer"], case["relative_path"], case["save_as"], "/out/data")
         norm = posixpath.normpath(dst)
